@@ -65,6 +65,36 @@ Theorem C15_gmres_reuse (S : Scalar) (A1 P1 A2 P2 : vec S -> vec S) prm1 prm2 f1
   fst (gmres A2 P2 prm2 f2 x2 (snd (gmres A1 P1 prm1 f1 x1 fresh1))) = fst (gmres A2 P2 prm2 f2 x2 fresh2).
 Proof. intro Hz. exact (gmres_junk_independent Hz A2 P2 prm2 f2 x2 _ fresh2). Qed.
 
+(* LGMRES: the ring buffer of augmentation vectors (outer_v: start index + slot list, and the K
+   vectors outer_v_data) is object state.  With always_reset = false the result of a call depends
+   on it -- the documented exception, shown on the model by two object states: *)
+Definition lg_dA : vec QcS -> vec QcS := diag_op [qc 1 1; qc 2 1].
+Definition lg_prm (areset : bool) : @kprm QcS :=
+  mkPrm 2 (qc 0 1) (qc 0 1) false false 1 false (qc 1 1) 1 areset 2 (qc 0 1) true.
+Definition lg_jv : vec QcS := [qc 7 1; qc 7 1].
+Definition lg_gm : @gm_ws QcS :=
+  mkGmWs (fun _ _ => qc 7 1) (fun _ => qc 7 1) (fun _ => qc 7 1) (fun _ => qc 7 1) lg_jv (fun _ => lg_jv) (fun _ => lg_jv).
+Definition lg_used : @lg_ws QcS := mkLgWs lg_gm (fun _ => [qc 1 1; qc 0 1]) (mkCb 0 [0]).   (* one stored vector *)
+Definition lg_fresh : @lg_ws QcS := mkLgWs lg_gm (fun _ => lg_jv) cb_clear.
+Theorem C15_lgmres_without_reset_depends_on_history :
+  match fst (lgmres lg_dA (fun v => v) (lg_prm false) [qc 3 1; qc 4 1] [qc 0 1; qc 0 1] lg_used),
+        fst (lgmres lg_dA (fun v => v) (lg_prm false) [qc 3 1; qc 4 1] [qc 0 1; qc 0 1] lg_fresh) with
+  | KOk r1, KOk r2 => k_x r1 <> k_x r2
+  | _, _ => False
+  end.
+Proof. vm_compute. intro H. discriminate H. Qed.
+Print Assumptions C15_lgmres_without_reset_depends_on_history.
+(* ... and with always_reset = true the same two objects give the same answer *)
+Example C15_lgmres_with_reset_same_instance :
+  fst (lgmres lg_dA (fun v => v) (lg_prm true) [qc 3 1; qc 4 1] [qc 0 1; qc 0 1] lg_used) =
+  fst (lgmres lg_dA (fun v => v) (lg_prm true) [qc 3 1; qc 4 1] [qc 0 1; qc 0 1] lg_fresh).
+Proof. vm_compute. reflexivity. Qed.
+
+Theorem C15_lgmres_zero_rhs (S : Scalar) (A P : vec S -> vec S) prm f x0 st :
+  sltb (norm_b f) eps1 = true -> p_ns prm = false ->
+  fst (lgmres A P prm f x0 st) = KOk (mkRes 0 (norm_b f) (k_clear x0) false).
+Proof. exact (lgmres_zero_rhs A P prm f x0 st). Qed.
+
 (* ---- A2: zero right-hand side => zero iterations and x = 0 ---- *)
 Theorem C15_cg_zero_rhs (S : Scalar) (A P : vec S -> vec S) prm f x0 junk :
   sltb (norm_a f) eps1 = true -> p_ns prm = false ->
